@@ -146,6 +146,10 @@ Lemma refund_tables_agree p q acc c :
   helper_refund_step false p q acc c = builder_refund_step q acc c.
 Proof. destruct c as [[?|]|[?|]| | | | | | | | ? | ? | | | ? | ? | | ?]; reflexivity. Qed.
 
+(* the driver's decoder inverts (cddl_tag, cert_coin): every certificate has exactly one case-file form *)
+Lemma cert_of_tag_inverse c : cert_of_tag (cddl_tag c) (cert_coin c) = Some c.
+Proof. destruct c as [[?|]|[?|]| | | | | | | | ? | ? | | | ? | ? | | ?]; reflexivity. Qed.
+
 (* ---------- builders: component totals ---------- *)
 Lemma certificates_deposit_exact cs p q :
   get_certificates_deposit cs p q = exact_or_error (spec_cert_deposits p q cs).
@@ -229,9 +233,10 @@ Proof.
   unfold known_ignores_proposals_gen, get_deposit_gen, spec_deposit. intros K.
   rewrite internal_get_deposit_exact. destruct ig; cbn [andb] in K.
   - rewrite (existsb_nonzero_false _ K), N.add_0_r. apply bind_exact_id.
-  - destruct (b_proposals b) as [ps |]; cbn [opt_list sumN fold_right].
-    + rewrite try_fold_checked_add. apply bind_exact_add.
-    + rewrite N.add_0_r. apply bind_exact_id.
+  - assert (P : match b_proposals b with None => Ok 0 | Some ps => try_fold checked_add 0 ps end
+                = exact_or_error (sumN (opt_list (b_proposals b)))).
+    { destruct (b_proposals b); cbn [opt_list]; [apply try_fold_checked_add | reflexivity]. }
+    rewrite P. apply bind_exact_add.
 Qed.
 
 Lemma helper_refund_sum retire p q cs :
@@ -292,9 +297,10 @@ Lemma helper_deposit_own_total ig b p q :
 Proof.
   unfold get_deposit_gen. rewrite internal_get_deposit_exact. destruct ig.
   - rewrite N.add_0_r. apply bind_exact_id.
-  - destruct (b_proposals b) as [ps |]; cbn [opt_list sumN fold_right].
-    + rewrite try_fold_checked_add. apply bind_exact_add.
-    + rewrite N.add_0_r. apply bind_exact_id.
+  - assert (P : match b_proposals b with None => Ok 0 | Some ps => try_fold checked_add 0 ps end
+                = exact_or_error (sumN (opt_list (b_proposals b)))).
+    { destruct (b_proposals b); cbn [opt_list]; [apply try_fold_checked_add | reflexivity]. }
+    rewrite P. apply bind_exact_add.
 Qed.
 
 (* ---------- helper = builder ---------- *)
